@@ -39,6 +39,18 @@ def parseScenario : List String → Option (Scenario × List String)
     pure (.mem (← l.toNat?) (← parseInt? a) (← parseInt? b) (← parseBool? p) (← parseBool? f), r)
   | "tablearity" :: nv :: rl :: r => do pure (.tableArity (← nv.toNat?) (← rl.toNat?), r)
   | "alldiffdup" :: d :: r => do pure (.allDiffDup (← parseBool? d), r)
+  | "alldiff" :: r =>
+    -- `alldiff <dom> | <dom> | … <call>`; `<dom>` = `f` or integer values
+    match r.reverse with
+    | call :: rest =>
+      let groups := ((rest.reverse).foldl (fun (acc : List (List String)) w =>
+        if w = "|" then [] :: acc else
+          match acc with
+          | g :: tl => (g ++ [w]) :: tl
+          | [] => [[w]]) [[]]).reverse
+      (groups.mapM (fun g => if g = ["f"] then some none else (parseInts g).map some)).map
+        (fun ds => (Scenario.allDiff ds, [call]))
+    | [] => none
   | "set" :: r =>
     -- the values run up to the call name (last word)
     match r.reverse with
